@@ -29,12 +29,12 @@ from transval import hx, unhx
 
 SPEC = {
     "prop": "C06",
-    "lean_targets": ["InfernoVerif.Props.C06", "InfernoVerif.Model.Delay", "InfernoVerif.Drv.SynSpec", "InfernoVerif.Gen.Dispatch"],
-    "prop_files": ["InfernoVerif/Props/C06.lean"],
+    "lean_targets": ["InfernoVerif.Props.C06", "InfernoVerif.Props.C05GlueProg", "InfernoVerif.Model.Delay", "InfernoVerif.Drv.SynSpec", "InfernoVerif.Gen.Dispatch"],
+    "prop_files": ["InfernoVerif/Props/C06.lean", "InfernoVerif/Props/C05GlueProg.lean"],
     "lemma_files": ["InfernoVerif/Lemmas/Delay.lean"],
     "model_files": ["InfernoVerif/Model/Delay.lean", "InfernoVerif/Model/Synapse.lean", "InfernoVerif/Model/Select.lean",
                     "InfernoVerif/Drv/SynSpec.lean", "InfernoVerif/Gen/InterpolationF.lean", "InfernoVerif/Gen/InterpolationR.lean"],
-    "translate": ["Interpolation"],
+    "translate": ["Interpolation", "ConnProg"],
     "driver_targets": ["InfernoVerif.Model.Delay", "InfernoVerif.Drv.SynSpec", "InfernoVerif.Gen.Dispatch"],
     "assumptions": [
         "theorems are over exact reals with delays that are exact multiples of dt; dt = 1.3 (k*1.3 is not k steps exactly in binary) is "
@@ -149,6 +149,12 @@ def run_real(c):
                 twin.clear()
             x = t64(st["x"]).reshape(B, *conn.inshape)
             o = {"clear": bool(st.get("clear"))}
+            if st.get("setD") is not None:
+                # the learned delays are RE-ASSIGNED through the public setter mid-run (what every delay-learning update does);
+                # what the connection then reports is what the expectation and the driver use from this step on
+                conn.delay = t64(st["setD"]).reshape(conn.delay.shape)
+                o["setD"] = (conn.delay.detach().reshape(conn.delay.shape[0], -1) if c["conn"] != "direct"
+                             else conn.delay.detach().reshape(1, -1)).tolist()
             o["syn_in"] = conn.like_synaptic(x).reshape(B, E).tolist()
             try:
                 o["out"] = conn(x).reshape(B, -1).tolist()
@@ -186,14 +192,21 @@ def shifted_expectation(c, real):
         Dm = torch.zeros_like(W)
     else:
         Dm = D
-    Km = torch.round(Dm / dt)
-    ongrid = bool(torch.all((Km * dt - Dm).abs() <= max(c["tol"], 1e-12)) and torch.all(Dm <= c["maxdelay"]) and torch.all(Dm >= 0))
+    def grid(Dm):
+        Km = torch.round(Dm / dt)
+        ok = bool(torch.all((Km * dt - Dm).abs() <= max(c["tol"], 1e-12)) and torch.all(Dm <= c["maxdelay"]) and torch.all(Dm >= 0))
+        return Km.long(), ok
+    Km, ongrid = grid(Dm)
+    for o in real["steps"]:
+        if o.get("setD") is not None and delayed:
+            ongrid = ongrid and grid(t64(o["setD"]))[1]
     if not ongrid:
         return None
-    Km = Km.long()
     exp = []
     hist_c, hist_s = [], []
     for o in real["steps"]:
+        if o.get("setD") is not None and delayed:
+            Km = grid(t64(o["setD"]))[0]
         if o["clear"]:
             hist_c, hist_s = [], []
         hist_c.append(t64(o["tcur"]))
@@ -272,6 +285,8 @@ def row_lines(c, real, b):
     for o in real["steps"]:
         if o["clear"]:
             lines.append("clear")
+        if o.get("setD") is not None:
+            lines.append("D " + mat(o["setD"]))
         lines.append("step " + vec(o["syn_in"][b]))
         lines.append("syncur")
         lines.append("synspk")
@@ -349,6 +364,8 @@ def row_diff(c, real, r, b, tol):
     for t, o in enumerate(real["steps"]):
         if o["clear"]:
             i += 1
+        if o.get("setD") is not None:
+            i += 1
         for name, boolean in (("out", False), ("syncur", False), ("synspk", True)):
             m, s = split(r[i])
             i += 1
@@ -415,15 +432,18 @@ def dyw(rng):
     return rng.randint(-8, 8) / 4
 
 
-def make_case(rng, conn, syn, dt, K, kind, T, batch=None, over_none=False, tol=0.0, setter=False, clear=None, inplace=None):
-    """kind ∈ none | zero | homogeneous | heterogeneous | offgrid | beyond"""
+def make_case(rng, conn, syn, dt, K, kind, T, batch=None, over_none=False, tol=0.0, setter=False, clear=None, inplace=None,
+              reassign=None):
+    """kind ∈ none | zero | homogeneous | heterogeneous | offgrid | subgrid | beyond;
+    subgrid: every delay is shorter than one step (0, 1/4, 1/2, 3/4 of dt) and at least one is non-zero;
+    reassign = step index at which new (on-grid) delays are assigned through the `delay` setter"""
     c = {"conn": conn, "syn": syn, "dt": dt, "Q": rng.choice([1.0, 2.0, -1.5, 0.5]), "tau": rng.choice([2.0, 4.0, 5.0, 10.0]),
          "mode": rng.choice("PN"), "tol": tol, "curOver": None if over_none else rng.choice([0.0, 0.0, -3.0]),
          "spkOver": None if over_none else False, "inplace": rng.random() < 0.5 if inplace is None else inplace,
          "batch": batch or rng.choice([1, 2]), "delaykind": kind}
     c["tauR"] = c["tau"] / rng.choice([2.0, 4.0])
     c["hasDelay"] = kind != "none"
-    maxk = K if kind != "offgrid" or K == 0 else K - rng.choice([0, 0.5])
+    maxk = K if kind not in ("offgrid",) or K == 0 else K - rng.choice([0, 0.5])
     c["maxdelay"] = float(maxk * dt) if c["hasDelay"] else 0.0
     c["ctor_maxdelay"] = c["maxdelay"]
     if setter and c["hasDelay"]:
@@ -461,6 +481,10 @@ def make_case(rng, conn, syn, dt, K, kind, T, batch=None, over_none=False, tol=0
         c["D"] = [float(rng.randint(0, kmax) * dt) for _ in range(nW)]
     elif kind == "offgrid":
         c["D"] = [min(float((rng.randint(0, kmax) + rng.choice([0, 0.25, 0.5, 0.75])) * dt), c["maxdelay"]) for _ in range(nW)]
+    elif kind == "subgrid":
+        c["D"] = [float(rng.choice([0, 0.25, 0.5, 0.75]) * dt) for _ in range(nW)]
+        if not any(c["D"]):
+            c["D"][rng.randrange(nW)] = 0.5 * dt
     elif kind == "beyond":
         c["D"] = [float(rng.randint(0, kmax) * dt) for _ in range(nW)]
         for j in rng.sample(range(nW), max(1, nW // 3)):
@@ -470,6 +494,9 @@ def make_case(rng, conn, syn, dt, K, kind, T, batch=None, over_none=False, tol=0
     c["steps"] = [{"x": [1.0 if rng.random() < p else 0.0 for _ in range(n_in)]} for _ in range(T)]
     if clear is not None and clear < T:
         c["steps"][clear]["clear"] = True
+    if reassign is not None and c["hasDelay"] and reassign < T:
+        c["steps"][reassign]["setD"] = [float(rng.randint(0, kmax) * dt) for _ in range(nW)]
+        c["delaykind"] = kind + "+reassigned"
     return c
 
 
@@ -522,7 +549,7 @@ def gen_cases(rng, thorough):
     i = 0
     for conn in CONNS:
         for syn in SYN:
-            for kind in ("heterogeneous", "homogeneous", "zero", "none", "offgrid", "beyond"):
+            for kind in ("heterogeneous", "homogeneous", "zero", "none", "offgrid", "subgrid", "beyond"):
                 reps = 1 if not thorough else 3
                 for _ in range(reps):
                     dt = [1.0, 0.5][i % 2]
@@ -537,16 +564,22 @@ def gen_cases(rng, thorough):
         for syn in SYN:
             for kind in ("heterogeneous", "homogeneous") if not thorough else ("heterogeneous", "homogeneous", "zero", "none"):
                 cases.append(make_case(rng, conn, syn, 1.3, rng.choice([1, 2, 3]), kind, T, clear=rng.choice([None, 3])))
+    # the learned delays are re-assigned mid-run through the `delay` setter (history keeps running)
+    for conn in CONNS:
+        for syn in SYN:
+            for rep in range(1 if not thorough else 3):
+                cases.append(make_case(rng, conn, syn, rng.choice([1.0, 0.5]), rng.choice([2, 3]), rng.choice(["heterogeneous", "homogeneous", "zero"]),
+                                       T, reassign=rng.choice([2, 3, 4]), clear=rng.choice([None, None, 6])))
     # reconfiguration by assignment after construction
     cases += reconf_cases(rng, T, reps=1 if not thorough else 3)
     # random extras
     for _ in range(40 if not thorough else 400):
-        kind = rng.choice(["heterogeneous", "heterogeneous", "homogeneous", "zero", "none", "offgrid", "beyond"])
+        kind = rng.choice(["heterogeneous", "heterogeneous", "homogeneous", "zero", "none", "offgrid", "subgrid", "beyond"])
         K = rng.randint(2 if kind == "offgrid" else 1, 5)
         cases.append(make_case(rng, rng.choice(CONNS), rng.choice(list(SYN)), rng.choice([1.0, 0.5, 2.0, 0.25]), K, kind,
                                rng.choice([6, 10, 16]) if not thorough else rng.choice([10, 20, 30]),
                                over_none=rng.random() < 0.3, tol=rng.choice([0.0, 0.0, 0.0625]), setter=rng.random() < 0.25,
-                               clear=rng.choice([None, None, 2, 5])))
+                               clear=rng.choice([None, None, 2, 5]), reassign=rng.choice([None, None, None, 3])))
     return cases
 
 
@@ -609,8 +642,23 @@ def explore(ctx) -> Exploration:
     ncorpus = len(cases)
     cases += gen_cases(rng, thorough)
     lines, plan = [], []
+    import traceback
     for c in cases:
-        real = run_real(c)
+        try:
+            real = run_real(c)
+        except Exception as e:  # noqa: BLE001
+            tb = traceback.extract_tb(e.__traceback__)
+            if not any("/inferno/" in (fr.filename or "") for fr in tb[-6:]):
+                raise
+            # a configuration inside the property's quantifier cannot even be built / stepped: that IS a failing input
+            where = next((f"{fr.filename.split('/inferno/')[-1]}:{fr.lineno} in {fr.name}" for fr in reversed(tb) if "/inferno/" in (fr.filename or "")), "")
+            if len(ex.findings) < 6:
+                ex.findings.append(Finding(kind="spec", key=f"C06:spec:{c['conn']}:{c['syn']}:{c['delaykind']}:raises",
+                                           what=f"{c['conn']} x {SYN[c['syn']].__name__} (dt={c['dt']}, max delay={c['maxdelay']}, tol={c['tol']}, "
+                                                f"overbound {c['curOver']}/{c['spkOver']}, delays {c['delaykind']}) raises {type(e).__name__}: "
+                                                f"{str(e)[:160]} at {where}; the undelayed twin / the specification has a value",
+                                           case={"cfg": c, "exception": f"{type(e).__name__}: {str(e)[:300]}", "where": where}))
+            continue
         exp = shifted_expectation(c, real)
         spans = []
         for b in range(c["batch"]):
